@@ -588,7 +588,7 @@ pub fn update_config(
             ))));
         }
         if (ramp.future_a > current_amp) && (ramp.future_a > current_amp * MAX_AMP_CHANGE)
-            || (ramp.future_a < current_amp) && (ramp.future_a * MAX_AMP_CHANGE > current_amp)
+            || (ramp.future_a < current_amp) && (ramp.future_a * MAX_AMP_CHANGE < current_amp)
         {
             return Err(ContractError::Std(StdError::generic_err(
                 "Amp change over max",
